@@ -70,6 +70,10 @@ def run(chk: core.Check, tier: str, seed: int) -> None:
                     q = pos.format(c=f"{fn}({sh})")
                     recs.append(impl.rec_compile(jp, q, extra={"reg": probes.reg_records(HELPERS + [("gl2", ["L"], "L")])},
                                                  env=probes.make_env(jp, HELPERS + [("gl2", ["L"], "L")], [])))
+    from .. import corpus  # noqa: PLC0415
+    bl = [("bl", ["L"], "L")]
+    bl_env = probes.make_env(jp, bl, [])
+    recs += [impl.rec_compile(jp, q, env=bl_env, extra={"reg": probes.reg_records(bl)}) for q in corpus.logical_param_skeletons(rng)]
     n_typing = len(recs)
     # integer range
     for lo, hi in [(-(2**53) + 1, 2**53 - 1), (-10, 10), (0, 3), (-2**31, 2**31), (-(10**20), 10**20)]:
